@@ -369,6 +369,9 @@ func (cur *FieldMask) GetPath(desc *thrift_reflection.TypeDescriptor, path strin
 				if !cur.All() {
 					return nil, false
 				}
+				// '*' names no single field, so there is no descriptor to
+				// descend with: the path is covered by the 'all' mask
+				return cur.all, true
 			} else {
 				return nil, false
 			}
